@@ -169,6 +169,12 @@ pub struct Ctx<'a> {
 pub const ENV_EVERY: u64 = 10;
 
 impl<'a> Ctx<'a> {
+    /// Cases that cost a thread of their own (histories, families) are part
+    /// of every quick-tier run and of every eighth thorough-tier run.
+    pub fn history_this_run(&self) -> bool {
+        self.tier == Tier::Quick || self.run % 8 == 0
+    }
+
     /// Execute one materialisable case of scenario `S`; record a failure.
     pub fn check<S: Scenario>(&mut self, case: &S::Case) -> bool {
         if let Some(a) = self.announce {
